@@ -18,28 +18,29 @@ def strip_generics(p):
     return p
 
 
+def last2(p):
+    return '::'.join(p.split('::')[-2:])
+
+
 TRANSPARENT = {
-    'std::ops::Deref::deref', 'std::ops::DerefMut::deref_mut', 'std::convert::AsRef::as_ref',
-    'std::borrow::Borrow::borrow', 'std::clone::Clone::clone', 'std::convert::AsMut::as_mut',
-    'std::borrow::ToOwned::to_owned', 'std::iter::IntoIterator::into_iter',
-    'std::option::Option::as_ref', 'std::option::Option::as_mut', 'std::option::Option::as_deref',
-    'std::result::Result::as_ref', 'std::result::Result::as_mut', 'std::pin::Pin::new',
-    'std::pin::Pin::new_unchecked', 'std::pin::Pin::as_mut', 'std::pin::Pin::get_mut',
-    'std::option::Option::copied', 'std::option::Option::cloned',
-    'std::future::IntoFuture::into_future', 'std::boxed::Box::new', 'std::boxed::Box::pin',
-    'std::sync::Arc::new', 'std::option::Option::take',
+    'Deref::deref', 'DerefMut::deref_mut', 'AsRef::as_ref', 'Borrow::borrow', 'Clone::clone', 'AsMut::as_mut',
+    'ToOwned::to_owned', 'IntoIterator::into_iter', 'Option::as_ref', 'Option::as_mut', 'Option::as_deref',
+    'Result::as_ref', 'Result::as_mut', 'Pin::new', 'Pin::new_unchecked', 'Pin::as_mut', 'Pin::get_mut',
+    'Option::copied', 'Option::cloned', 'IntoFuture::into_future', 'Box::new', 'Box::pin', 'Arc::new', 'Option::take',
+    'Pin::into_inner', 'Pin::get_unchecked_mut', 'Pin::map_unchecked_mut',
 }
 CMP_CALLS = {
-    'std::cmp::PartialOrd::lt': 'lt', 'std::cmp::PartialOrd::le': 'le', 'std::cmp::PartialOrd::gt': 'gt',
-    'std::cmp::PartialOrd::ge': 'ge', 'std::cmp::PartialEq::eq': 'eq', 'std::cmp::PartialEq::ne': 'ne',
+    'PartialOrd::lt': 'lt', 'PartialOrd::le': 'le', 'PartialOrd::gt': 'gt',
+    'PartialOrd::ge': 'ge', 'PartialEq::eq': 'eq', 'PartialEq::ne': 'ne',
 }
 BINOPS = {'Lt': 'lt', 'Le': 'le', 'Gt': 'gt', 'Ge': 'ge', 'Eq': 'eq', 'Ne': 'ne'}
 PRIMS = {'u8', 'u16', 'u32', 'u64', 'u128', 'usize', 'i8', 'i16', 'i32', 'i64', 'i128', 'isize', 'bool', 'char'}
 OPTION_PREDS = {
-    'std::option::Option::is_some': ('ok', False), 'std::option::Option::is_none': ('ok', True),
-    'std::result::Result::is_ok': ('ok', False), 'std::result::Result::is_err': ('ok', True),
+    'Option::is_some': ('ok', False), 'Option::is_none': ('ok', True),
+    'Result::is_ok': ('ok', False), 'Result::is_err': ('ok', True),
 }
-MAX_DEPTH = 14
+MAX_DEPTH = 48
+MAX_TERM = 2500
 
 
 def short_ty(t):
@@ -238,7 +239,13 @@ class Fn:
             t = alts[0] if len(alts) == 1 else 'phi(' + '|'.join(alts) + ')'
         else:
             t = f'var({name or "_" + str(l)})'
-        self._tcache[key] = t
+        if len(t) > MAX_TERM:
+            t = f'long(_{l})'
+        if 'deep(' in t or 'rec(' in t:
+            # do not memoise a depth-truncated or cycle-cut result
+            self._tcache.pop(key, None)
+        else:
+            self._tcache[key] = t
         return t
 
     def term_def(self, d, depth):
@@ -340,7 +347,7 @@ class Fn:
         args = [self.term_operand(a, depth) for a in t[2]]
         if 'op' in c:
             return f'indirect({self.term_operand(c["op"], depth)})(' + ','.join(args) + ')'
-        d = strip_generics(c['def'])
+        d = last2(strip_generics(c['def']))
         if d in TRANSPARENT and args:
             return args[0]
         if d in CMP_CALLS and len(args) == 2:
@@ -351,15 +358,13 @@ class Fn:
             f, neg = OPTION_PREDS[d]
             r = f'ok({args[0]})'
             return negate(r) if neg else r
-        if d == 'std::ops::Try::branch' and args:
+        if d == 'Try::branch' and args:
             return f'try({args[0]})'
-        if d in ('std::convert::Into::into', 'std::convert::From::from') and args:
+        if d in ('Into::into', 'From::from') and args:
             return f'into<{short_ty(self.locals[t[3]] if isinstance(t[3], int) else "")}>({args[0]})'
         name = strip_generics(c.get('res') or c['def']).replace(', ', ';').replace(',', ';')
         # awaiting an async fn / async block: poll of the coroutine body built by the call
-        if len(args) == 2 and 'get_context(' in args[1] and (name.endswith('::{closure#0}') or d == 'std::future::Future::poll'):
-            return f'await({args[0]})'
-        if d == 'std::future::Future::poll' and args:
+        if len(args) == 2 and 'get_context(' in args[1] and (name.endswith('::{closure#0}') or name.endswith('::poll')):
             return f'await({args[0]})'
         return f'{name}(' + ','.join(args) + ')'
 
